@@ -42,12 +42,16 @@ def fresh(tag="opaque") -> Rat:
     return app("opaque", f"{tag}#{_fresh[0]}")
 
 
+VALIDATORS = {"lt", "lte", "gt", "gte", "neq", "minmax_incl", "minmax_excl", "min_excl_max_incl", "min_incl_max_excl", "integer",
+              "instance", "identifier", "nestedidentifier", "index"}
+
+
 class Builder:
     """Builds terms for expressions of one function."""
 
     def __init__(self, prog: Program | None, func: Func | None, env=None, facts=None, *,
                  positive=DEFAULT_POSITIVE, erase_casts=True, inline_depth=3, self_prefix="self",
-                 inline_filter=None, erase_layout=False):
+                 inline_filter=None, erase_layout=False, erase_validation=False, keep_raises=False, track_locals=False):
         self.prog, self.func = prog, func
         self.env = dict(env or {})
         self.facts = facts or Facts()
@@ -56,13 +60,17 @@ class Builder:
         self.inline_depth = inline_depth
         self.inline_filter = inline_filter
         self.erase_layout = erase_layout
+        self.erase_validation = erase_validation   # argtest.<check>(name, value, ...) -> value (validators return their value)
+        self.keep_raises = keep_raises     # a `raise X(...)` is the value raise(X) (a leaf of the decision tree), not bottom
+        self.track_locals = track_locals   # item stores / deletes on local containers are recorded as stores "<name>[]"
         self.stores: dict[str, object] = {}   # dotted attribute path -> term (last store on this path)
         self.effects: list = []               # (kind, detail) for calls evaluated as statements
 
     def child(self, env=None, facts=None):
         b = Builder(self.prog, self.func, self.env if env is None else env, facts or self.facts,
                     positive=self.positive, erase_casts=self.erase_casts, inline_depth=self.inline_depth,
-                    inline_filter=self.inline_filter, erase_layout=self.erase_layout)
+                    inline_filter=self.inline_filter, erase_layout=self.erase_layout, erase_validation=self.erase_validation,
+                    keep_raises=self.keep_raises, track_locals=self.track_locals)
         b.stores = dict(self.stores)
         return b
 
@@ -279,6 +287,10 @@ class Builder:
         else:
             star = False
 
+        if self.erase_validation and isinstance(f, ast.Attribute) and dotted(f.value) == "argtest" and len(args) >= 2 \
+                and f.attr in VALIDATORS and isinstance(e.args[0], ast.Constant) and isinstance(e.args[0].value, str):
+            return args[1]
+
         # call of a locally bound callable value (e.g. `transform = lambda x: x` under a guard)
         if isinstance(f, ast.Name) and f.id in self.env and isinstance(self.env[f.id], Rat):
             fv = self.env[f.id]
@@ -343,7 +355,8 @@ class Builder:
             else:
                 return None
         sub = Builder(self.prog, callee, {}, self.facts, positive=self.positive, erase_casts=self.erase_casts,
-                      inline_depth=self.inline_depth - 1, inline_filter=self.inline_filter, erase_layout=self.erase_layout)
+                      inline_depth=self.inline_depth - 1, inline_filter=self.inline_filter, erase_layout=self.erase_layout,
+                      erase_validation=self.erase_validation)
         for n in rest:
             if n not in env:
                 if n in defaults:
@@ -441,6 +454,10 @@ class Builder:
         if n in IDENTITY_CASTS and not is_method and args:
             return args[0] if len(args) == 1 else tuple(args)
         if n in ("zeros", "zeros_like") and len(args) >= 1:
+            shp = kws.get("shape") if isinstance(kws, dict) else None
+            if shp is not None and nf.show(shp) not in ("()", "(,)"):
+                # an explicitly shaped block of zeros (padding): its extent matters to whoever concatenates it
+                return app("zeros_shaped", shp)
             return C(0)
         if n in ("ones", "ones_like") and len(args) >= 1:
             return C(1)
@@ -461,6 +478,8 @@ class Builder:
             if isinstance(st, ast.Return):
                 return self.t(st.value) if st.value is not None else app("const", "None")
             if isinstance(st, ast.Raise):
+                if self.keep_raises:
+                    return app("raise", "refusal")   # which exception type is raised is not part of any property
                 return BOTTOM
             if isinstance(st, ast.If):
                 c = self.t(st.test)
@@ -545,6 +564,13 @@ class Builder:
                     if d is not None:
                         self.env[d] = app("inplace", c.func.attr, self.t(c.func.value), *[self.t(a) for a in c.args])
                 self.effects.append(("call", c))
+        elif isinstance(st, ast.Delete) and self.track_locals:
+            for tg in st.targets:
+                if isinstance(tg, ast.Subscript) and dotted(tg.value) is not None:
+                    d = dotted(tg.value)
+                    nv = app("delitem", self.t(tg.value), self._slice(tg.slice))
+                    self.env[d] = nv
+                    self.stores[d + ("[]" if "." not in d else "")] = nv
         elif isinstance(st, (ast.Pass, ast.Import, ast.ImportFrom, ast.Global, ast.Nonlocal, ast.Assert, ast.Delete)):
             pass
         elif isinstance(st, ast.With):
@@ -591,6 +617,8 @@ class Builder:
                 self.env[d] = nv
                 if "." in d:
                     self.stores[d] = nv
+                elif self.track_locals:
+                    self.stores[d + "[]"] = nv
         elif isinstance(tgt, ast.Starred):
             self.assign(tgt.value, app("starred", v))
 
